@@ -173,6 +173,19 @@ func (w *World) reentrant(alias string, sock engine.Socket, event string) {
 			sock.Close(false)
 		case "close-discard":
 			sock.Close(true)
+		case "sleep":
+			// a listener that does some work: the request (or reader) that delivered the event stays
+			// in flight for that long, so that other requests, closes and timers land inside it
+			simrt.Sleep(time.Duration(r.Ms) * time.Millisecond)
+			if r.Then != "" {
+				then := r.Then
+				simrt.GoActor(fmt.Sprintf("app-then%d-%s", i, alias), func() {
+					w.recx(Ev{Sess: alias, Kind: "app-close", S: then, St: sockState(sock)})
+					sock.Close(then == "close-discard")
+					simrt.Yield(-5)
+					w.recx(Ev{Sess: alias, Kind: "app-close-ret", S: then, St: sockState(sock)})
+				})
+			}
 		}
 		w.recx(Ev{Sess: alias, Kind: "reent-ret", S: r.Call + " in " + event, St: sockState(sock)})
 	}
